@@ -77,6 +77,21 @@ Fixpoint repl_q (q : N) (v : str) : str :=
 Definition strval (v : str) : option str :=
   match v with [] => None | q :: _ => Some (removelast (tl (repl_q q v))) end.
 
+(* helper.unescape (prefix before the namespace lookup, l.355): the backslash before g-z G-Z _ non-ASCII, and before
+   "-" unless that backslash starts the string, is removed; case and every other escape are kept *)
+Definition nameesc (d : N) (first : bool) : bool :=
+  (N.leb 103 d && N.leb d 122) || (N.leb 71 d && N.leb d 90) || N.eqb d 95 || N.leb 128 d || (N.eqb d 45 && negb first).
+Fixpoint unesc_name (first : bool) (x : str) : str :=
+  match x with
+  | [] => []
+  | c :: r => if N.eqb c 92
+              then match r with
+                   | d :: r' => if nameesc d first then d :: unesc_name false r' else c :: unesc_name false r
+                   | [] => [c]
+                   end
+              else c :: unesc_name false r
+  end.
+
 (* val.split('|') unpacked into two names: ValueError unless exactly one '|' *)
 Fixpoint split_bar (v : str) : option (str * str) :=
   match v with
@@ -234,7 +249,7 @@ Definition append (ns : ns_map) (σ : st) (val : ival) (typ : ityp) : option st 
           if eqs p (s "*") then after (VPair UAny name)
           else match p with
                | [] => after (VPair (UStr []) name)
-               | _ => match assoc_s p ns with
+               | _ => match assoc_s (unesc_name true p) ns with                           (* l.355-356 *)
                       | Some u => after (VPair (UStr u) name)
                       | None => Some (bad σ1)                                            (* l.356-362 *)
                       end
